@@ -61,8 +61,8 @@ int lbuf_search(struct lbuf *lb, char *kw, int dir, int *r, int *o, int *len)
 	for (i = r0; !found && i >= 0 && i < lbuf_len(lb); i += dir) {
 		char *s = lbuf_get(lb, i);
 		int off = dir > 0 && r0 == i ? uc_chr(s, o0 + 1) - s : 0;
-		while (rstr_find(re, s + off, 1, offs,
-				off ? RE_NOTBOL : 0) >= 0) {
+		while (rstr_find(re, s + off, 1, offs, !off ? 0 : RE_NOTBOL |
+				(uc_kind(uc_beg(s, s + off - 1)) == 1 ? RE_WORDBEF : 0)) >= 0) {
 			if (dir < 0 && r0 == i &&
 					uc_off(s, off + offs[0]) >= o0)
 				break;
